@@ -98,6 +98,11 @@ def run(ctx):
         for bs in rng.sample([64, 65, 100, 127, 128, 256, 4096, 8096, 65536], 3):
             gs.add("B\t%d" % bs)
             gidx.append((bs, f, tab, gs.add("D")))
+    for f, tab, note in U.nul_heavy_files(rng, 3 if quick else 30):
+        gs.add("F\t" + f.hex())
+        for bs in (64, 128, 65536):
+            gs.add("B\t%d" % bs)
+            gidx.append((bs, f, tab, gs.add("D")))
     gout, gerr = gs.run(scratch)
     gate_cases, gate_hist, gate_dis = [], {}, 0
     if gout is None:
@@ -165,6 +170,8 @@ def run(ctx):
     for key in ("F3a", "F3b", "F3c"):
         f, tab, bs = U.witnesses()[key]
         files.append((f, tab, "witness " + key, [64, 4096] if key != "F3c" else [4096, 0xFFFFFF]))
+    for f, tab, note in U.nul_heavy_files(rng, 3 if quick else 40):
+        files.append((f, tab, note, [64, 128, 4096] if quick else BIN_BS))
     for f, tab, note in C02.binary_files(rng, 14 if quick else 150):
         files.append((f, tab, note, BIN_BS if not quick else rng.sample(BIN_BS, 4)))
     # files whose first dated line is complete inside the smallest block: the accepted domain
